@@ -35,7 +35,11 @@ USER_SECS = {
     'Unit': ['After=dev-disk-by\\x2dlabel-data.device', 'ConditionPathExists=/mnt/my\\sdata', 'Description="Data" container', 'Description=a\tb', "Description='q' \\\"r",
              'Description=d e', 'After=x.service', 'After=', 'After=y.service z.service', 'Wants=w.target', 'Requires=r.service', 'Documentation=man:foo(1)', 'SourcePath=/mine',
              # the user's reset of a dependency list (alone, and followed by a new value), for every list the generator adds to
-             'Wants=', 'Wants=', 'Wants=foo.service', 'Requires=', 'Before=', 'BindsTo=', 'RequiresMountsFor=', 'RequiresMountsFor=/mnt/x'],
+             'Wants=', 'Wants=', 'Wants=foo.service', 'Requires=', 'Before=', 'BindsTo=', 'RequiresMountsFor=', 'RequiresMountsFor=/mnt/x',
+             # the user's own entries may say what the generator is about to say as well (a host path it mounts, the runtime directory, the
+             # network target): they stay where they are, each of them, whatever is added after them
+             'RequiresMountsFor=/srv/data', 'RequiresMountsFor=/srv/data', 'RequiresMountsFor=%t/containers', 'After=network-online.target', 'Wants=network-online.target',
+             'RequiresMountsFor=/srv/other', 'After=late.target'],
     'Service': ['Environment="A=a b" B=\\x41', 'ExecStartPre=/bin/sh -c "echo \\"x\\" \\\\ y"', 'ExecReload=/bin/kill -HUP $MAINPID', 'Restart=always', 'Environment=A=1', 'Environment=', 'Environment=B=2', 'ExecStartPre=/bin/true', 'ExecStartPre=', 'TimeoutStartSec=900', 'KillMode=mixed',
                 'KillMode=control-group', 'Type=oneshot', 'Type=notify', 'SyslogIdentifier=me', 'RemainAfterExit=no', 'WorkingDirectory=/w', 'NotifyAccess=main', 'ExecStart=/bin/mine',
                 'Delegate=no'],
@@ -66,6 +70,8 @@ def gen_unit(ctx, ty):
                 # every managed key with an ordinary value, with an empty assignment, and with a value followed by an empty one
                 USER_SECS[sec] += [f'{k}=', f'{k}=x', f'{k}=yes', f'{k}=no']
     own = ['[' + G.SEC[ty] + ']'] + list(G.BASE[ty])
+    if ty in ('container', 'pod', 'build') and rnd.random() < 0.4:
+        own.append('Volume=/srv/data:/data')     # (a host path: the generator adds RequiresMountsFor=/srv/data)
     for _ in range(rnd.randint(0, 3)):
         k = rnd.choice(ctx.tables['supported'][G.SUP[ty]])
         own.append(k + '=' + rnd.choice(['x', 'yes', '', 'a b', '10']))
